@@ -19,8 +19,8 @@ from . import core, model, psx
 from .core import tmax, tmin
 from .sweep34 import cflags, lit128
 
-REPS = ["int32_t", "int64_t", "double", "float", "uint32_t"]
-FLT = ("float", "double")
+REPS = ["int32_t", "int64_t", "double", "float", "uint32_t", "uint64_t", "long double"]
+FLT = ("float", "double", "long double")
 UBSAN = ["-fsanitize=undefined", "-fsanitize-recover=all"]
 
 PREAMBLE = r'''
@@ -57,10 +57,10 @@ def point_units(tier):
     q = [PU("kelvins", "au::Kelvins", 1, 0), PU("celsius", "au::Celsius", 1, C0),
          PU("fahrenheit", "au::Fahrenheit", Fr(5, 9), F0),
          PU("milli_kelvins", "au::Milli<au::Kelvins>", Fr(1, 1000), 0),
-         PU("PA", "gen::PA", Fr(3, 7), Fr(5, 4)), PU("PB", "gen::PB", 1, Fr(-7, 6))]
+         PU("PA", "gen::PA", Fr(3, 7), Fr(5, 4)), PU("PB", "gen::PB", 1, Fr(-7, 6)),
+         PU("centi_celsius", "au::Centi<au::Celsius>", Fr(1, 100), C0)]
     if tier == "thorough":
-        q += [PU("centi_celsius", "au::Centi<au::Celsius>", Fr(1, 100), C0),
-              PU("kilo_kelvins", "au::Kilo<au::Kelvins>", 1000, 0),
+        q += [PU("kilo_kelvins", "au::Kilo<au::Kelvins>", 1000, 0),
               PU("milli_celsius", "au::Milli<au::Celsius>", Fr(1, 1000), C0),
               PU("milli_fahrenheit", "au::Milli<au::Fahrenheit>", Fr(5, 9000), F0),
               PU("PC", "gen::PC", Fr(2, 5), C0), PU("PD", "gen::PD", Fr(5, 9), Fr(5, 27)),
@@ -155,10 +155,12 @@ def readouts(wd, cfg, units, qunits):
             meta[rid] = ("disp", a.name, b.name)
             rid += 1
     for i, a in enumerate(units):
-        for b in units[i + 1:]:
+        for b in units[i:]:
             recs.append((rid, ['using Cp = au::CommonPointUnitT<%s, %s>;' % (a.cpp, b.cpp),
                                'vf_kv("mag", vf::MagJson<au::detail::MagT<Cp>>::get());',
                                'vf_kv("origin", c09d::origin_json(au::origin_displacement(au::Kelvins{}, Cp{})));',
+                               'vf_kv("d1", c09d::origin_json(au::origin_displacement(Cp{}, %s{})));' % a.cpp,
+                               'vf_kv("d2", c09d::origin_json(au::origin_displacement(Cp{}, %s{})));' % b.cpp,
                                'using Dq = decltype(std::declval<au::QuantityPoint<%s, long long>>() - std::declval<au::QuantityPoint<%s, long long>>());' % (a.cpp, b.cpp),
                                'vf_kv("sub_mag", vf::MagJson<au::detail::MagT<typename Dq::Unit>>::get());']))
             meta[rid] = ("cpu", a.name, b.name)
@@ -232,6 +234,10 @@ class Conv:
         if self.same:
             body += " (void)p.coerce_in(U2{}); (void)p.coerce_as(U2{});"
         out = [((self.id, "ci"), mk + body, self.pred("ci"))]
+        if self.pred("ci"):
+            # the same conversions with the target named by its point maker (unit-slot spelling)
+            out.append(((self.id, "maker"), mk + "(void)p.template in<T>(au::QuantityPointMaker<U2>{}); (void)p.template as<T>(au::QuantityPointMaker<U2>{});"
+                        + (" (void)p.coerce_as(au::QuantityPointMaker<U2>{});" if self.same else ""), True))
         if self.same:
             out.append(((self.id, "pol"), mk + "(void)p.in(U2{}); (void)p.as(U2{});", self.pred("pol")))
         # implicit converting constructor: 'ctor' = declared implicit AND well-formed; 'noctor' = not declared implicit.
@@ -244,20 +250,30 @@ class Conv:
     def swept(self, cfg):
         return self.static_out is None and self.ops[cfg.name].get("ci")
 
-    def prepare(self, big, small):
+    def prepare(self, big, small, lat_step=0):
         lo, hi = lim(self.r1)
         u1, u2 = self.u1, self.u2
         cen = [0, rnd((u2.o - u1.o) / u1.s), rnd(-u1.o / u1.s)]
         iv = windows(cen, big, lo, hi)
-        b = [lo, hi, 2 ** 24, -2 ** 24, 2 ** 31, -2 ** 31, 2 ** 32, 2 ** 53, -2 ** 53]
+        b = [lo, hi, 2 ** 24, -2 ** 24, 2 ** 31, -2 ** 31, 2 ** 32, 2 ** 53, -2 ** 53, 2 ** 63, 2 ** 64 - 1]
+        divs = (1,)
         if not isf(self.calc):
             cl, ch = lim(self.calc)
             for L in (cl, ch):
                 b += [L // self.kx, (L - self.kd) // self.kx, (int(Fr(L, self.n)) - self.kd) // self.kx]
+            limits = [cl, ch]
             if not isf(self.r2):
+                limits += list(lim(self.r2))
                 for L in lim(self.r2):
                     b.append((int(Fr(L * self.d, self.n)) - self.kd) // self.kx)
+            # overflow thresholds of other plausible orders of the same computation (scale before displacing, divide late, ...)
+            for L in limits:
+                for den in (self.kx * self.n, self.kx * self.n * self.d, self.kx * self.d, self.n, self.d, self.n * self.d):
+                    b += [L // den, (L - self.kd * self.n) // (self.kx * self.n)]
+            divs = (1, self.kx, self.kx * self.n)
         self.iv = merge(iv + windows(b, small, lo, hi))
+        if lat_step:
+            self.iv = merge(self.iv + [(max(x - 1, lo), min(x + 1, hi)) for x in lattice(lo, hi, divs, lat_step)])
         if not isf(self.r1) and core.BITS[self.r1] <= 16:
             self.iv = [(lo, hi)]          # 8/16-bit source reps: every value
 
@@ -269,10 +285,10 @@ class Conv:
         c = self.calc
         cl, ch = lim(c)
         return ("struct I%d { typedef %s U1; typedef %s U2; typedef %s R1; typedef %s R2; typedef %s CF; "
-                "static constexpr bool CFLOAT = %s, CUNS = %s, SAME = %s, POL = %s, CTOR = %s; %s };\n%s"
+                "static constexpr bool CFLOAT = %s, CUNS = %s, SAME = %s, POL = %s, CTOR = %s, MAKER = %s; %s };\n%s"
                 % (self.id, self.u1.cpp, self.u2.cpp, self.r1, self.r2, cf_of(c), str(isf(c)).lower(),
                    str(not isf(c) and not core.is_signed(c)).lower(), str(self.same).lower(),
-                   str(bool(ops.get("pol"))).lower(), str(bool(ops.get("ctor"))).lower(),
+                   str(bool(ops.get("pol"))).lower(), str(bool(ops.get("ctor"))).lower(), str(bool(ops.get("maker"))).lower(),
                    consts(KX=self.kx, KD=self.kd, N=self.n, D=self.d, CLO=cl, CHI=ch), ivs("A%d" % self.id, self.iv)))
 
     def call(self):
@@ -281,6 +297,29 @@ class Conv:
     def rec(self):
         return {"type": "conv", "u1": [self.u1.name, self.u1.cpp, str(self.u1.s), str(self.u1.o)],
                 "u2": [self.u2.name, self.u2.cpp, str(self.u2.s), str(self.u2.o)], "r1": self.r1, "r2": self.r2}
+
+
+def lattice(lo, hi, divs=(1,), step=1):
+    """Enumerated mid-range lattice: {2^j, 3*2^(j-1), 5*2^(j-2)} and the same divided by every factor in divs, +-1, both signs."""
+    lat = set()
+    for j in range(2, 64, step):
+        for v in (2 ** j, 3 * 2 ** (j - 1), 5 * 2 ** (j - 2)):
+            for k in divs:
+                if k > 0:
+                    lat.add(v // k)
+    if lo < 0:
+        lat |= {-x for x in lat}
+    return [x for x in sorted(lat) if lo <= x <= hi]
+
+
+KIND_PREAMBLE = r'''
+namespace c09k {
+template <typename T> struct IsQ : std::false_type {};
+template <typename U, typename R> struct IsQ<au::Quantity<U, R>> : std::true_type {};
+template <typename T> struct IsP : std::false_type {};
+template <typename U, typename R> struct IsP<au::QuantityPoint<U, R>> : std::true_type {};
+}
+'''
 
 
 class Pair:
@@ -292,22 +331,44 @@ class Pair:
         self.sc = model.mag_fraction(model.mag_from_readout(cpu["mag"]))
         self.oc = min(u1.o, u2.o)                      # model: the common origin is the smallest origin
         self.ab = [(u.s / self.sc, (u.o - self.oc) / self.sc) for u in (u1, u2)]
+        self.sub_in_cpu = cpu.get("sub_mag") == cpu.get("mag")
         self.static_out = None
         if any(a.denominator != 1 or b.denominator != 1 for a, b in self.ab):
             self.static_out = "positions are not integral in the implementation's common point unit"
         elif not isf(self.c) and any(b > tmax(self.c) for a, b in self.ab):
             self.static_out = "origin offset does not fit the common rep"
+        # the documented computation of p.as(common point unit) in the common rep: x*KX + D*KDD (common unit of the operand's
+        # unit and the unit the origin displacement is written in), then * N.  Every factor is policy-checked, D must fit.
+        self.path = []
+        for u, key in ((u1, "d1"), (u2, "d2")):
+            d = cpu.get(key)
+            if d is None:
+                self.path.append(None)
+            elif d["zero"]:
+                self.path.append((1, 1, 0, u.s / self.sc))
+            else:
+                du = model.mag_fraction(model.mag_from_readout(d["mag"]))
+                cu = fgcd(u.s, du)
+                self.path.append((int(u.s / cu), int(du / cu), d["v"], cu / self.sc))
         self.ops = {}
 
     def desc(self):
         return "U1=%s:R1=%s:U2=%s:R2=%s" % (self.u1.name, self.r1, self.u2.name, self.r2)
 
     def pred(self, group):
+        """True = the statement gives the library no reason to refuse (floating common rep, or every factor of the documented
+        computation inside the implicit-conversion policy and the displacement representable); None = cannot tell."""
         if isf(self.c):
             return True
         if self.static_out:
             return False
-        return all(pol(int(a), self.c) and b <= tmax(self.c) // 2 for a, b in self.ab)
+        if any(x is None for x in self.path):
+            return None
+        c = self.c
+        for (kx, kdd, dv, n) in self.path:
+            if n.denominator != 1 or not (pol(kx, c) and pol(kdd, c) and pol(int(n), c)) or not (tmin(c) <= dv <= tmax(c)):
+                return False
+        return True
 
     def probes(self, cfg):
         mk = ("auto a = au::make_quantity_point<%s>(static_cast<%s>(1)); auto b = au::make_quantity_point<%s>(static_cast<%s>(1)); "
@@ -317,25 +378,34 @@ class Pair:
                ((self.id, "sub"), mk + "(void)(a - b); (void)(b - a);", self.pred("sub"))]
         if cfg.std == "c++20":
             out.append(((self.id, "ss"), mk + "(void)(a <=> b); (void)(b <=> a);", self.pred("ss")))
+        if self.pred("sub"):
+            # the result of point - point is a Quantity (a displacement), never a point
+            out.append(((self.id, "kind"), mk + "static_assert(c09k::IsQ<decltype(a - b)>::value && c09k::IsQ<decltype(b - a)>::value, \"\");", True))
         return out
 
     def swept(self, cfg):
         return self.static_out is None and self.ops[cfg.name].get("cmp")
 
-    def prepare(self, big, small):
+    def prepare(self, big, small, lat_step=0, full16=False):
         self.w, self.f = [], []
         us = (self.u1, self.u2)
         for i, (u, r) in enumerate(zip(us, (self.r1, self.r2))):
             o = us[1 - i]
             lo, hi = lim(r)
             cen = [0, rnd((o.o - u.o) / u.s), rnd(-u.o / u.s)]
-            self.w.append(windows(cen, big, lo, hi))
+            if not isf(r) and core.BITS[r] <= 16:
+                self.w.append([(lo, hi)] if core.BITS[r] == 8 or full16 else windows(cen + [lo, hi], big, lo, hi))
+            else:
+                self.w.append(windows(cen, big, lo, hi))
             b = cen + [lo, hi, 1000, -1000]
+            a = 1
             if not isf(self.c):
                 cl, ch = lim(self.c)
                 a, off = int(self.ab[i][0]), int(self.ab[i][1])
                 b += [ch // a, cl // a, (ch - off) // a, (cl - off) // a]
             self.f.append(windows(b, small, lo, hi))
+            if lat_step:
+                self.w[i] = merge(self.w[i] + [(x, x) for x in lattice(lo, hi, (1, a), lat_step)])
 
     def weight(self):
         n = lambda iv: sum(b - a + 1 for a, b in iv)
@@ -347,7 +417,7 @@ class Pair:
         return ("struct I%d { typedef %s U1; typedef %s U2; typedef %s R1; typedef %s R2; typedef %s C; typedef %s CF; "
                 "static constexpr bool CFLOAT = %s, SUB = %s, SS = %s; %s };\n%s\n%s\n%s\n%s"
                 % (self.id, self.u1.cpp, self.u2.cpp, self.r1, self.r2, self.c, cf_of(self.c), str(isf(self.c)).lower(),
-                   str(bool(ops.get("sub"))).lower(), str(bool(ops.get("ss"))).lower(),
+                   str(bool(ops.get("sub")) and self.sub_in_cpu).lower(), str(bool(ops.get("ss"))).lower(),
                    consts(A1=int(a1), B1=int(b1), A2=int(a2), B2=int(b2)),
                    ivs("W1_%d" % self.id, self.w[0]), ivs("F1_%d" % self.id, self.f[0]),
                    ivs("W2_%d" % self.id, self.w[1]), ivs("F2_%d" % self.id, self.f[1])))
@@ -386,12 +456,23 @@ class Shift:
     def probes(self, cfg):
         mk = ("auto p = au::make_quantity_point<%s>(static_cast<%s>(1)); auto q = au::make_quantity<%s>(static_cast<%s>(1)); "
               % (self.u1.cpp, self.r1, self.u2.cpp, self.r2))
-        return [((self.id, "shift"), mk + "(void)(p + q); (void)(q + p); (void)(p - q);", self.pred("shift"))]
+        out = [((self.id, "shift"), mk + "(void)(p + q); (void)(q + p); (void)(p - q);", self.pred("shift"))]
+        if self.pred("shift"):
+            # point +- quantity is a point
+            out.append(((self.id, "kind"), mk + "static_assert(c09k::IsP<decltype(p + q)>::value && c09k::IsP<decltype(q + p)>::value && "
+                        "c09k::IsP<decltype(p - q)>::value, \"\");", True))
+        if self.sameq():
+            out.append(((self.id, "compound"), mk + "p += q; p -= q;", True))
+        return out
+
+    def sameq(self):
+        """the quantity operand has exactly the point's Diff type: p += q / p -= q are available without any conversion"""
+        return self.u1.cpp == self.u2.cpp and self.r1 == self.r2
 
     def swept(self, cfg):
         return self.static_out is None and self.ops[cfg.name].get("shift")
 
-    def prepare(self, big, small):
+    def prepare(self, big, small, lat_step=0, full16=False):
         lo, hi = lim(self.r1)
         self.w = windows([0, rnd(-self.u1.o / self.u1.s)], big, lo, hi)
         b = [lo, hi]
@@ -399,11 +480,17 @@ class Shift:
             cl, ch = lim(self.c)
             b += [ch // int(self.ap), cl // int(self.ap)]
         self.w = merge(self.w + windows(b, small, lo, hi))
+        if not isf(self.r1) and (core.BITS[self.r1] == 8 or (core.BITS[self.r1] == 16 and full16)):
+            self.w = [(lo, hi)]
+        if lat_step:
+            self.w = merge(self.w + [(x, x) for x in lattice(lo, hi, (1, int(self.ap)), lat_step)])
         lo, hi = lim(self.r2)
         b = [0, 1000, -1000, lo, hi]
         if not isf(self.c):
             b += [ch // int(self.aq), cl // int(self.aq)]
         self.f = windows(b, small, lo, hi)
+        if lat_step:
+            self.f = merge(self.f + [(x, x) for x in lattice(lo, hi, (1, int(self.aq)), max(lat_step, 4))])
 
     def weight(self):
         n = lambda iv: sum(b - a + 1 for a, b in iv)
@@ -411,8 +498,9 @@ class Shift:
 
     def emit(self, cfg):
         return ("struct I%d { typedef %s UP; typedef %s UQ; typedef %s RP; typedef %s RQ; typedef %s C; typedef %s CF; "
-                "static constexpr bool CFLOAT = %s; %s };\n%s\n%s"
+                "static constexpr bool CFLOAT = %s, COMPOUND = %s; %s };\n%s\n%s"
                 % (self.id, self.u1.cpp, self.u2.cpp, self.r1, self.r2, self.c, cf_of(self.c), str(isf(self.c)).lower(),
+                   str(bool(self.ops[cfg.name].get("compound"))).lower(),
                    consts(AP=int(self.ap), AQ=int(self.aq), B=int(self.b)),
                    ivs("W%d" % self.id, self.w), ivs("F%d" % self.id, self.f)))
 
@@ -427,15 +515,30 @@ class Shift:
 
 
 SHIFT_REPS_QUICK = [("int32_t", "int32_t"), ("int32_t", "int64_t"), ("int64_t", "int32_t"), ("uint32_t", "uint32_t"),
-                    ("double", "double"), ("float", "double"), ("int32_t", "double")]
+                    ("double", "double"), ("float", "double"), ("int32_t", "double"), ("uint64_t", "uint64_t"),
+                    ("long double", "long double"), ("int64_t", "int64_t"), ("float", "float")]
 # quick tier: every equal-rep pair + both orders of the width/signedness/int-float mixes
 REPS_QUICK = [(r, r) for r in REPS] + [("int32_t", "int64_t"), ("int64_t", "int32_t"), ("uint32_t", "int32_t"),
                                        ("int32_t", "uint32_t"), ("int32_t", "double"), ("double", "int32_t"),
-                                       ("float", "double"), ("double", "float"), ("int64_t", "float")]
-# narrow reps, conversions only (added after seeded change C09: the intermediate-rep rule matters for unsigned reps
+                                       ("float", "double"), ("double", "float"), ("int64_t", "float"),
+                                       ("uint64_t", "int64_t"), ("int64_t", "uint64_t"), ("uint32_t", "uint64_t"),
+                                       ("long double", "double"), ("float", "long double")]
+# narrow reps, conversions (added after seeded change C09: the intermediate-rep rule matters for unsigned reps
 # narrower than int, where std::common_type_t<T,T> does not promote)
 REPS_NARROW_CONV = [("uint16_t", "uint16_t"), ("uint8_t", "uint8_t"), ("int16_t", "int16_t"), ("uint16_t", "int32_t"),
                     ("int16_t", "uint16_t"), ("uint8_t", "uint16_t")]
+# narrow reps for point (op) point and point +- quantity: equal narrow reps keep the whole computation in the narrow rep
+# (std::common_type_t<T,T> = T), mixed ones promote to int
+REPS_NARROW_PAIR = [("int16_t", "int16_t"), ("uint16_t", "uint16_t"), ("uint8_t", "uint8_t"), ("int8_t", "int8_t"),
+                    ("int8_t", "int16_t"), ("uint8_t", "uint16_t"), ("uint16_t", "int16_t"), ("int16_t", "int32_t")]
+# quick tier, distinct units, point (op) point
+PAIR_QUICK = [(r, r) for r in REPS] + [("int32_t", "int64_t"), ("uint32_t", "int32_t"), ("int32_t", "double"), ("float", "double"),
+                                       ("uint64_t", "int64_t"), ("long double", "double"), ("int64_t", "float"),
+                                       ("int16_t", "int16_t"), ("uint16_t", "uint16_t"), ("int8_t", "int16_t"), ("uint8_t", "uint16_t"),
+                                       ("uint16_t", "int16_t"), ("int16_t", "int32_t")]
+SHIFT_NARROW_QUICK = [("int16_t", "int16_t"), ("uint16_t", "uint16_t"), ("uint8_t", "uint8_t"), ("int8_t", "int16_t"), ("int16_t", "int32_t")]
+REPS_SAME_UNIT = [(r, r) for r in REPS] + REPS_NARROW_PAIR[:4] + [("int32_t", "int64_t"), ("uint32_t", "int32_t"), ("float", "double"),
+                                                                   ("int16_t", "int32_t"), ("uint8_t", "uint16_t"), ("int64_t", "uint64_t")]
 
 
 def build_instances(tier, units, qunits, ro):
@@ -444,52 +547,64 @@ def build_instances(tier, units, qunits, ro):
     full = [(a, b) for a in REPS for b in REPS]
 
     def rps(a, b):
-        # thorough: all 25 ordered rep pairs among the six core units, the 13-pair mix elsewhere
+        # thorough: all 49 ordered rep pairs among the core units, the mix elsewhere
         return full if tier == "thorough" and a.name in core6 and b.name in core6 else REPS_QUICK
     for a in units:
         for b in units:
             if a is b or (a.name, b.name) not in ro["disp"]:
                 continue
             for r1, r2 in rps(a, b) + REPS_NARROW_CONV:
-                if True:
-                    out.append(Conv(len(out), a, r1, b, r2, ro["disp"][(a.name, b.name)]))
+                out.append(Conv(len(out), a, r1, b, r2, ro["disp"][(a.name, b.name)]))
     for i, a in enumerate(units):
-        for b in units[i + 1:]:
+        for b in units[i:]:
             if (a.name, b.name) not in ro["cpu"]:
                 continue
-            for r1, r2 in rps(a, b):
-                if True:
-                    out.append(Pair(len(out), a, r1, b, r2, ro["cpu"][(a.name, b.name)]))
+            # same-unit operands (the non-template friend operators when the reps are equal too) get their own menu
+            both_core = a.name in core6 and b.name in core6
+            if a is b:
+                menu = REPS_SAME_UNIT if tier == "quick" or not both_core else full + REPS_NARROW_PAIR
+            else:
+                menu = PAIR_QUICK if tier == "quick" or not both_core else full + REPS_NARROW_PAIR
+            for r1, r2 in menu:
+                out.append(Pair(len(out), a, r1, b, r2, ro["cpu"][(a.name, b.name)]))
     reps = SHIFT_REPS_QUICK if tier == "quick" else REPS_QUICK
     for p in units:
         for q in qunits:
             if (p.name, q.name) not in ro["shift"]:
                 continue
-            for rp, rq in reps:
+            for rp, rq in reps + (SHIFT_NARROW_QUICK if tier == "quick" else REPS_NARROW_PAIR):
                 out.append(Shift(len(out), p, rp, q, rq, ro["shift"][(p.name, q.name)]))
     return out
 
 
 def run_domain_probes(wd, cfg, insts):
+    """Returns (mismatches: predicted reject / observed accept, n accepted, n rejected, refused: probes the model predicts must
+    compile (no policy reason to refuse) that the compiler rejects -> the check reports those as violations)."""
     ps = []
     for it in insts:
         for pid, code, exp in it.probes(cfg):
-            ps.append(core.Probe(pid, code, "accept" if exp else "reject"))
-    res, _ = core.run_probes(cfg, ps, os.path.join(wd, "dom_" + cfg.name), "c09d", PREAMBLE, flags=cflags(cfg))
+            ps.append(core.Probe(pid, code, "accept" if exp else "reject", {"must": exp is True}))
+    res, _ = core.run_probes(cfg, ps, os.path.join(wd, "dom_" + cfg.name), "c09d", PREAMBLE + KIND_PREAMBLE, flags=cflags(cfg))
     by = {it.id: it for it in insts}
-    mism, nacc, nrej = [], 0, 0
+    mism, nacc, nrej, refused = [], 0, 0, []
     for it in insts:
         it.ops[cfg.name] = {}
     for p in ps:
         v, diag = res[p.pid]
         it = by[p.pid[0]]
-        it.ops[cfg.name][p.pid[1]] = v == "accept"
+        g = p.pid[1]
+        it.ops[cfg.name][g] = v == "accept"
         nacc += v == "accept"
         nrej += v == "reject"
-        if v != p.expect and p.pid[1] not in ("ctor", "noctor"):
-            mism.append({"config": str(cfg), "instance": it.kind + ":" + it.desc(), "group": p.pid[1],
+        if v == p.expect or g in ("ctor", "noctor"):
+            continue
+        if p.meta["must"] and g != "pol":
+            if not it.static_out:
+                refused.append((it, g, p.code, diag))
+        else:
+            mism.append({"config": str(cfg), "instance": it.kind + ":" + it.desc(), "group": g,
                          "predicted": p.expect, "observed": v, "diag": diag[:140]})
-    return mism, nacc, nrej
+    return mism, nacc, nrej, refused
 
 
 def build_and_run(wd, cfg, tag, insts, flags, nsplit, timeout=3000):
@@ -610,7 +725,35 @@ def negative_probes(tier):
                 ("quantity-to-point-init", "%s z = q; (void)z;" % P, "%s z = p; (void)z;" % P),
                 ("quantity-maker-on-point", "(void)au::QuantityMaker<%s>{}(p);" % u, "(void)au::QuantityMaker<%s>{}(static_cast<%s>(1));" % (u, r)),
                 ("point-maker-on-quantity", "(void)au::QuantityPointMaker<%s>{}(q);" % u, "(void)au::QuantityPointMaker<%s>{}(static_cast<%s>(1));" % (u, r)),
+                # further forms without affine meaning
+                ("q-p", "(void)(q - p);", "(void)(p - q);"),
+                ("negate-p", "(void)(-p);", "(void)(-q);"),
+                ("p/k", "(void)(p / k);", "(void)(q / k);"),
+                ("k/p", "(void)(k / p);", "(void)(k * q);"),
+                ("p-=p", "p -= p;", "p -= q;"),
+                ("p*=k", "p *= k;", "q *= k;"),
+                ("p/=k", "p /= k;", "q /= k;"),
+                ("p*q", "(void)(p * q);", "(void)(q * q);"),
+                ("q*p", "(void)(q * p);", "(void)(q * q);"),
+                ("p/q", "(void)(p / q);", "(void)(q / q);"),
+                ("q/p", "(void)(q / p);", "(void)(q / q);"),
+                # a point where a quantity is required (and vice versa) in comparison position
+                ("p==q", "(void)(p == q);", "(void)(q == q); (void)(p == p);"),
+                ("q==p", "(void)(q == p);", "(void)(q == q); (void)(p == p);"),
+                ("p<q", "(void)(p < q);", "(void)(q < q); (void)(p < p);"),
+                ("q>=p", "(void)(q >= p);", "(void)(q >= q); (void)(p >= p);"),
+                ("p==ZERO", "(void)(p == au::ZERO);", "(void)(q == au::ZERO);"),
+                ("p<ZERO", "(void)(p < au::ZERO);", "(void)(q < au::ZERO);"),
+                ("ZERO<=p", "(void)(au::ZERO <= p);", "(void)(au::ZERO <= q);"),
+                # explicit conversions between the two kinds
+                ("explicit-quantity-from-point", "%s z{p}; (void)z;" % Q, "%s z{q}; (void)z;" % Q),
+                ("static_cast-quantity-from-point", "(void)static_cast<%s>(p);" % Q, "(void)static_cast<%s>(q);" % Q),
+                ("explicit-point-from-quantity", "%s z{q}; (void)z;" % P, "%s z{p}; (void)z;" % P),
+                ("static_cast-point-from-quantity", "(void)static_cast<%s>(q);" % P, "(void)static_cast<%s>(p);" % P),
                             ]
+            if not isf(r):
+                cases.append(("p%p", "(void)(p % p);", "(void)(q % q);"))
+                cases.append(("p%q", "(void)(p % q);", "(void)(q % q);"))
             if un in makers:
                 qm, pm = makers[un]
                 cases += [("named-quantity-maker-on-point", "(void)%s(p);" % qm, "(void)%s(static_cast<%s>(1));" % (qm, r)),
